@@ -596,6 +596,22 @@ impl Snap {
             next_type_id,
         }
     }
+    /// Recycle the snap to build another one that numbers the extended item
+    /// types like `other` does.
+    ///
+    /// Deltas are keyed by the numbered type, so snapshots that are diffed
+    /// against each other must agree on the numbering.
+    pub fn recycle_like(mut self, other: &Snap) -> Builder {
+        self.raw.clear();
+        self.extended_types.clone_from(&other.extended_types);
+        for (&uuid, &raw_type_id) in &self.extended_types {
+            // It fit in `other`, it's going to fit here.
+            self.raw
+                .add_item(TYPE_ID_EX, raw_type_id, &uuid_to_item_data(uuid))
+                .unwrap();
+        }
+        self.recycle()
+    }
 }
 
 pub struct Items<'a> {
